@@ -351,11 +351,24 @@ func (usi *UnrotatedSegmentInfo) DoCMICheckForUnrotated(currQuery *structs.Searc
 	if wildcardColQuery {
 		colsToCheck = usi.allColumns
 	}
-	// a negated match wants the records that do not have the words, the bloom cannot rule out a block for it
-	negateMatch := currQuery.MatchFilter != nil && currQuery.MatchFilter.NegateMatch
+	// a negated query wants the records that do not match, the micro indices cannot rule out a block for it
+	negateMatch := currQuery.IsNegated()
 	var err error
 	if isRange {
+		var blocksInTimeRange []uint16
+		if negateMatch {
+			for blkNum := range timeFilteredBlocks {
+				blocksInTimeRange = append(blocksInTimeRange, blkNum)
+			}
+		}
 		err = usi.doRangeCheckForCols(timeFilteredBlocks, rangeFilter, rangeOp, colsToCheck, qid)
+		// the range check still tells which columns can satisfy the comparison; a block in which none can is kept
+		// with no column to search, so that all its records are selected
+		for _, blkNum := range blocksInTimeRange {
+			if _, ok := timeFilteredBlocks[blkNum]; !ok {
+				timeFilteredBlocks[blkNum] = make(map[string]bool)
+			}
+		}
 	} else if !wildcardValue && !negateMatch {
 		err = usi.doBloomCheckForCols(timeFilteredBlocks, bloomWords, originalBloomWords, bloomOp, colsToCheck, qid)
 	}
